@@ -493,6 +493,9 @@ def check_c(ck, repo):
         else:
             ok = len(r) == 1 and isinstance(r[0].value, ast.Call) and [src_of(a) for a in r[0].value.args] == params
             inner = m.functions.get(src_of(r[0].value.func)) if ok else None
+        # thresholds travel in double precision: Cython's `float` is the C single-precision type
+        narrow = [(fn_.name, a_.arg, ast.unparse(a_.annotation)) for fn_ in m.functions.values() for a_ in fn_.args.args if a_.annotation is not None and ast.unparse(a_.annotation) in ("float", "float32_t", "cnp.float32_t", "np.float32_t")]
+        ck.verdict(not narrow, "C12.c", None, f"C types of the floating arguments: {narrow or 'float64_t / double / untyped'}", "thresholds, impurities and weights reach Tree._add_node in double precision", f"{narrow[0][0] if narrow else ''}: argument '{narrow[0][1] if narrow else ''}' is declared `{narrow[0][2] if narrow else ''}`, C single precision: a bin edge that is not a float32 number is rounded before it is stored as threshold, so an x equal to the edge (or between the edge and its rounding) is sent to the wrong side and digitize2tree(..).predict differs from numpy.digitize", file="mlinsights/mltree/_tree_digitize.pyx", function=narrow[0][0] if narrow else "tree_add_node", line=w.lineno)
         ck.verdict(ok and inner is not None, "C12.c", None, "tree_add_node -> cdef helper(same arguments)", "wrapper forwards its arguments in order", "the Python wrapper reorders or drops arguments of the cdef helper", file="mlinsights/mltree/_tree_digitize.pyx", function="tree_add_node", line=w.lineno)
         if inner is not None:
             ip = [a.arg for a in inner.args.args]
